@@ -1056,6 +1056,75 @@ def multi_violation(items, rng):
     return it, "multi-" + kind
 
 
+def near_miss(items, rng):
+    """Returns (items', label): a WELL-FORMED file with declarations that are *nearly* in violation of a uniqueness
+    rule — sibling variants whose symbol sequences differ but coincide under a plausible wrong key (names written
+    back to back: [Ab, Cd] vs [AbCd]; a permutation; a duplicated symbol; a proper prefix; names differing in
+    letter case only), variant names and top-level names that differ in case, by a suffix or by an underscore.
+    Every such file must pass validation; a validator keyed too coarsely reports a clash that is not there."""
+    import copy
+    it = copy.deepcopy(items)
+    nts = [d for d in it if d["kind"] in ("struct", "enum")]
+    terms = [d for d in it if d["kind"] == "terminal"]
+    if not nts or len(terms) != 1:
+        return None
+    term = terms[0]
+    taken = {d["name"] for d in nts} | {v["name"] for v in term["variants"]} | {term["name"]}
+    a, b = rng.choice([("Ab", "Cd"), ("Opt", "Expr"), ("Kw", "Arg"), ("X", "Y"), ("Aa", "A")])
+    ab = a + b
+    if {a, b, ab, a.upper() + "q", "Zznear"} & taken:
+        return None
+    kind = rng.choice(["concat-nn", "concat-tn", "concat-tt", "permutation", "duplication", "prefix", "case", "variant-names", "toplevel-names"])
+
+    def tup(*syms):
+        return {"kind": "tuple", "fields": [{"used": rng.random() < 0.8, "sym": x} for x in syms]}
+
+    def add_nt(name):
+        it.append({"kind": "struct", "attrs": [], "name": name, "fieldset": {"kind": "empty"}})
+
+    def add_t(name):
+        term["variants"].append({"name": name, "type": "()"})
+
+    if kind == "concat-nn":
+        add_nt(a); add_nt(b); add_nt(ab)
+        vs = [tup(sym_n(a), sym_n(b)), tup(sym_n(ab))]
+    elif kind == "concat-tn":
+        add_t(a); add_nt(b); add_t(ab)
+        vs = [tup(sym_t(a), sym_n(b)), tup(sym_t(ab))]
+    elif kind == "concat-tt":
+        add_t(a); add_t(b); add_t(ab)
+        vs = [tup(sym_t(a), sym_t(b)), tup(sym_t(ab))]
+    elif kind == "permutation":
+        add_nt(a); add_t(b)
+        vs = [tup(sym_n(a), sym_t(b)), tup(sym_t(b), sym_n(a))]
+    elif kind == "duplication":
+        add_nt(a)
+        vs = [tup(sym_n(a), sym_n(a)), tup(sym_n(a)), tup(sym_n(a), sym_n(a), sym_n(a))]
+    elif kind == "prefix":
+        add_nt(a); add_t(b)
+        vs = [tup(sym_n(a), sym_t(b)), tup(sym_n(a)), tup(sym_n(a), sym_t(b), sym_t(b))]
+    elif kind == "case":
+        up = a.upper() + "q"
+        lo = a.upper() + "Q"
+        add_nt(up); add_nt(lo)
+        vs = [tup(sym_n(up)), tup(sym_n(lo))]
+    else:
+        vs = None
+    if kind == "variant-names":
+        names = rng.choice([["Ab", "AB", "Ab_", "Ab2"], ["V", "V_", "V0", "Vv"], ["Xy", "XY", "X_y"]])
+        d = {"kind": "enum", "attrs": [], "name": "Zznear", "variants": [{"name": n, "fieldset": ({"kind": "empty"} if j == 0 else tup(*([sym_n(nts[0]["name"])] * j)))} for j, n in enumerate(names)]}
+        it.insert(rng.randint(0, len(it)), d)
+    elif kind == "toplevel-names":
+        base = "Zznear"
+        for j, n in enumerate([base, base + "2", base.upper(), base + "_"]):
+            it.insert(rng.randint(0, len(it)), {"kind": "struct", "attrs": [], "name": n, "fieldset": ({"kind": "empty"} if j % 2 else tup(sym_n(nts[0]["name"])))})
+    else:
+        rng.shuffle(vs)
+        d = {"kind": "enum", "attrs": [], "name": "Zznear", "variants": [{"name": f"V{j}", "fieldset": v} for j, v in enumerate(vs)]}
+        it.insert(rng.randint(0, len(it)), d)
+    return it, "near-" + kind
+
+
 def rename_nt(items, old, new, refs=True):
     done = False
     for d in items:
